@@ -3,6 +3,7 @@ package stick
 import (
 	"bytes"
 	"io"
+	"io/ioutil"
 	"os"
 	"path/filepath"
 )
@@ -79,5 +80,12 @@ func (l *FilesystemLoader) Load(name string) (Template, error) {
 	if err != nil {
 		return nil, err
 	}
-	return &fileTemplate{name, f}, nil
+	// Read the file now and close it, instead of keeping it open for as
+	// long as the template is referenced.
+	defer f.Close()
+	contents, err := ioutil.ReadAll(f)
+	if err != nil {
+		return nil, err
+	}
+	return &fileTemplate{name, bytes.NewReader(contents)}, nil
 }
